@@ -42,6 +42,8 @@ type z =
 | Zpos of positive
 | Zneg of positive
 
+val eqb : bool -> bool -> bool
+
 module Nat :
  sig
   val pred : nat -> nat
@@ -67,6 +69,10 @@ module Pos :
 
   val iter : ('a1 -> 'a1) -> 'a1 -> positive -> 'a1
 
+  val div2 : positive -> positive
+
+  val div2_up : positive -> positive
+
   val size : positive -> positive
 
   val compare_cont : comparison -> positive -> positive -> comparison
@@ -84,6 +90,8 @@ module Pos :
   val coq_land : positive -> positive -> n
 
   val ldiff : positive -> positive -> n
+
+  val testbit : positive -> n -> bool
 
   val iter_op : ('a1 -> 'a1 -> 'a1) -> positive -> 'a1 -> 'a1
 
@@ -105,6 +113,8 @@ module N :
   val coq_land : n -> n -> n
 
   val ldiff : n -> n -> n
+
+  val testbit : n -> n -> bool
  end
 
 module Z :
@@ -161,14 +171,22 @@ module Z :
 
   val even : z -> bool
 
+  val odd : z -> bool
+
+  val div2 : z -> z
+
   val log2 : z -> z
+
+  val testbit : z -> z -> bool
+
+  val shiftl : z -> z -> z
+
+  val shiftr : z -> z -> z
 
   val coq_lor : z -> z -> z
 
   val coq_land : z -> z -> z
  end
-
-val nth : nat -> 'a1 list -> 'a1 -> 'a1
 
 val rev : 'a1 list -> 'a1 list
 
@@ -257,8 +275,6 @@ type 'a outcome =
 | Panic of char list
 | OutOfFuel
 
-val min_int64 : z
-
 val max_int64 : z
 
 val max_uint32 : z
@@ -280,6 +296,8 @@ val rune_error : z
 val max_rune : z
 
 val is_surrogate : z -> bool
+
+val valid_rune : z -> bool
 
 val bytes_of : char list -> z list
 
@@ -315,14 +333,11 @@ type goLib = { xid_start : (z -> bool); xid_continue : (z -> bool);
                parse_float : (char list -> (f64 * bool) option);
                format_int : (z -> char list);
                format_float_json : (f64 -> char list);
-               f64_neg : (f64 -> f64); regex_ok : (char list -> z -> bool);
-               atoi_clamp : (char list -> z) }
+               f64_neg : (f64 -> f64); regex_ok : (char list -> z -> bool) }
 
-val is_digit : z -> bool
+val f64_finite : f64 -> bool
 
-val dec_value_acc : z -> z list -> z
-
-val dec_value : z list -> z
+val f64_integral : f64 -> bool
 
 type f0 = spec_float
 
@@ -346,6 +361,10 @@ val f64_nan_bits : z
 
 val f64_to_bits : f0 -> z
 
+val fde_loop : nat -> z -> z -> z -> z -> z -> z * z
+
+val zfast_div_eucl : z -> z -> z * z
+
 val loc_of_rem : z -> z -> location
 
 val f64_of_ratio : bool -> z -> z -> f0
@@ -358,7 +377,7 @@ val f64_of_dec : bool -> z -> z -> f0
 
 val cz : char -> z
 
-val is_digit0 : char -> bool
+val is_digit : char -> bool
 
 val lowerz : char -> z
 
@@ -411,13 +430,11 @@ val strip_trailing_zeros_rev : z list -> z list
 
 val strip_trailing_zeros : z list -> z list
 
-val lt_pow10 : z -> z -> z -> bool
+val small_fdiv : z -> z -> z
 
-val dp_loop : nat -> z -> z -> z -> z
-
-val dec_point : z -> z -> z
-
-val sd_loop : nat -> z -> z -> z -> z -> z -> bool -> z -> z list * z
+val sdJ_loop :
+  nat -> z -> z -> z -> bool -> comparison -> z -> z -> z -> z -> bool -> z
+  -> z list * z
 
 val shortest_digits : f0 -> z list * z
 
@@ -563,6 +580,7 @@ type lex_err =
 | EHex
 | EUnicode
 | EU0000
+| EInvalidChar
 | EOutOfFuel
 
 type 'a lres =
@@ -705,10 +723,6 @@ val scan_operator : z -> z list -> ((token * z) * z list) lres
 val lex_tok :
   goLib -> nat -> z -> z list -> ((token option * z) * z list) lres
 
-val tok_table : tkind list
-
-val norm_tok : token -> token
-
 val err_tok : lex_err -> token
 
 val lex_all : goLib -> nat -> z -> z list -> token list
@@ -800,6 +814,30 @@ val parse_tokens : goLib -> token list -> parse_result
 
 val parse : goLib -> char list -> parse_result
 
+val is_accessor_step : step -> bool
+
+val is_pred_step : step -> bool
+
+val is_pred_chain : chain -> bool
+
+val is_expr_chain : chain -> bool
+
+val chain_shape : chain -> bool
+
+val wf_text : char list -> bool
+
+val is_number_chain : chain -> bool
+
+val lit_int_ok : z -> bool
+
+val step_ok : goLib -> step -> bool
+
+val st_all : (step -> bool) -> (step list -> bool) -> step -> bool
+
+val ch_all : (step -> bool) -> (step list -> bool) -> chain -> bool
+
+val wf_chain : goLib -> chain -> bool
+
 val binop_name : binop -> char list
 
 val binop_prio : binop -> nat
@@ -859,7 +897,15 @@ val unmarshal_binary : goLib -> char list -> (path, api_err) sum
 
 val unmarshal_text : goLib -> char list -> (path, api_err) sum
 
-val atoi_impl : char list -> z
+val is_operator_step : step -> bool
+
+val op_with_tail : chain -> bool
+
+val integral_numeric : step -> bool
+
+val excl_chain : chain -> bool
+
+val excl_C02 : path -> bool
 
 val mk_lib : (char list -> z -> bool) -> goLib
 
